@@ -262,6 +262,8 @@ inline char g_crash_path[512];
 inline char g_crash_buf[1 << 20];
 inline size_t g_crash_len = 0;
 inline unsigned g_run_alarm_s = 30; // watchdog per run (SIGALRM -> treated like a crash: "hang")
+inline unsigned g_isolated_alarm_s = 0; // watchdog of forked executions (0: the same); shortened while a hang is being minimised
+inline unsigned g_shrink_max_reruns = 3000;
 
 // ---------------------------------------------------------------- json (tiny)
 inline std::string jesc(const std::string& s)
@@ -528,7 +530,7 @@ inline Exec execute_isolated(World& w,
     // crash handlers of the worker must not write crash plans for these children
     g_crash_dir.clear();
     g_crash_len = 0;
-    alarm(g_run_alarm_s);
+    alarm(g_isolated_alarm_s ? g_isolated_alarm_s : g_run_alarm_s);
     Exec e = execute(w, p, known, trace);
     alarm(0);
     std::string out;
@@ -628,9 +630,9 @@ inline Plan shrink(World& w,
   size_t chunk = p.ops.size() / 2;
   if (chunk < 1)
     chunk = 1;
-  while (chunk >= 1 && reruns < 3000) {
+  while (chunk >= 1 && reruns < g_shrink_max_reruns) {
     bool any = false;
-    for (size_t i = 0; i + chunk <= p.ops.size() && reruns < 3000;) {
+    for (size_t i = 0; i + chunk <= p.ops.size() && reruns < g_shrink_max_reruns;) {
       Plan q = p;
       q.ops.erase(q.ops.begin() + (long)i, q.ops.begin() + (long)(i + chunk));
       if (fails(q)) {
@@ -649,7 +651,7 @@ inline Plan shrink(World& w,
   }
   // simplify args (two passes)
   for (int pass = 0; pass < 2; pass++) {
-    for (size_t i = 0; i < p.ops.size() && reruns < 6000; i++) {
+    for (size_t i = 0; i < p.ops.size() && reruns < 2 * g_shrink_max_reruns; i++) {
       for (int j = 0; j < NARGS; j++) {
         bool improved = true;
         int guard = 0;
@@ -679,7 +681,7 @@ inline Plan shrink(World& w,
       }
     }
     // one more single-op deletion sweep
-    for (size_t i = 0; i < p.ops.size() && reruns < 8000;) {
+    for (size_t i = 0; i < p.ops.size() && reruns < 3 * g_shrink_max_reruns;) {
       Plan q = p;
       q.ops.erase(q.ops.begin() + (long)i);
       if (fails(q))
@@ -973,8 +975,21 @@ inline int sim_main(World& w, int argc, char** argv)
       return 0;
     }
     unsigned reruns = 0;
+    bool hang = cls == "crash:exit74";
+    if (hang) {
+      // every failing execution of a hang costs a full watchdog period: minimise with a shorter one and fewer attempts,
+      // then confirm the result under the full period (and keep the original plan if it does not hold)
+      g_isolated_alarm_s = g_run_alarm_s / 5 < 5 ? 5 : g_run_alarm_s / 5;
+      g_shrink_max_reruns = 80;
+    }
     Plan m = shrink(w, r.plan, &known, prop, cls, &reruns, true);
+    g_isolated_alarm_s = 0;
+    g_shrink_max_reruns = 3000;
     Exec fin = execute_isolated(w, m, &known, true);
+    if (hang && !has_violation(fin, prop, cls)) {
+      m = r.plan;
+      fin = execute_isolated(w, m, &known, true);
+    }
     std::string detail;
     for (auto& fv : fin.v)
       if (fv.prop == prop && fv.cls == cls)
